@@ -151,26 +151,35 @@ Theorem C17_parfor_prefix_agrees_nonempty : forall fuel first a b step, a < b ->
 Proof. exact pf_aux_prefix_agrees. Qed.
 Print Assumptions C17_parfor_prefix_agrees_nonempty.
 
-(** grain-size variant, grainsize >= 1: every leaf is at most [grain] indices
-    and is passed as (first + a*step, first + b*step); for a non-empty range
-    the leaves form a chain 0 = a_0 < b_0 = a_1 < ... = n, i.e. they partition
-    [0, n); an empty or reversed range is passed on to the body as one range *)
+(** grain-size variant after commit fa6ed3f, ALL grain sizes (zero and negative
+    included; only representability is assumed): every leaf has at most
+    max(grain, 1) indices and is passed as (first + a*step, first + b*step);
+    for a non-empty range the leaves form a chain 0 = a_0 < b_0 = a_1 < ... = n,
+    i.e. they partition [0, n); an empty or reversed range is passed on to the
+    body as one range *)
 Theorem C17_parallel_for_grain : forall bits f first last step grain, 1 <= bits -> bits - 1 <= Z.of_nat f ->
   pg_guard bits first last step grain = true ->
   exists l, pf_grain (S f) first last step grain = GDone l /\
     let n := count3 first last step in
-    Forall (gleaf_ok first step grain) l /\
+    Forall (fun x => let '((a, b), (lo, hi)) := x in
+                     b - a <= Z.max grain 1 /\ lo = first + a * step /\ hi = first + b * step) l /\
     (0 < n -> chain 0 n (map fst l) /\
               flat_map (fun p => zrange (fst p) (snd p)) (map fst l) = zrange 0 n) /\
     (n <= 0 -> map fst l = [(0, n)]).
 Proof. exact pf_grain_guarded. Qed.
 Print Assumptions C17_parallel_for_grain.
 
-(** grain sizes below 1 (outside TBB's contract) make a one-element range split forever *)
-Theorem C17_parfor_grain0_diverges : forall fuel first a step grain, grain <= 0 ->
-  pg_aux fuel first a (a + 1) step grain = GOutOfFuel.
-Proof. exact pg_aux_grain0_diverges. Qed.
-Print Assumptions C17_parfor_grain0_diverges.
+(** the code before commit fa6ed3f: a grain size below 1 makes a one-element
+    range split forever, for every amount of fuel *)
+Theorem C17_parfor_grain0_prefix_refuted : forall fuel first a step grain, grain <= 0 ->
+  pg_aux_prefix fuel first a (a + 1) step grain = GOutOfFuel.
+Proof. exact pg_aux_prefix_grain0_diverges. Qed.
+Print Assumptions C17_parfor_grain0_prefix_refuted.
+
+Theorem C17_parfor_grain_prefix_agrees : forall fuel first a b step grain, 1 <= grain ->
+  pg_aux_prefix fuel first a b step grain = pg_aux fuel first a b step grain.
+Proof. exact pg_aux_prefix_agrees. Qed.
+Print Assumptions C17_parfor_grain_prefix_agrees.
 
 (** range-based form over a blocked_range-like range *)
 Theorem C17_parallel_for_range : forall bits f a b grain, 1 <= bits -> bits - 1 <= Z.of_nat f ->
@@ -213,5 +222,8 @@ Proof. vm_compute. repeat split. Qed.
 Example C17_parallel_for_grain_example :
   pg_guard 32 0 10 1 3 = true /\
   pf_grain 33 0 10 1 3 = GDone [((0, 2), (0, 2)); ((2, 5), (2, 5)); ((5, 7), (5, 7)); ((7, 10), (7, 10))] /\
+  pg_guard 32 0 3 1 0 = true /\ pg_guard 32 0 3 1 (-3) = true /\
+  pf_grain 33 0 3 1 0 = GDone [((0, 1), (0, 1)); ((1, 2), (1, 2)); ((2, 3), (2, 3))] /\
+  pf_grain 33 0 3 1 (-3) = GDone [((0, 1), (0, 1)); ((1, 2), (1, 2)); ((2, 3), (2, 3))] /\
   pr_aux 33 0 10 3 = RDone [(0, 2); (2, 5); (5, 7); (7, 10)].
 Proof. vm_compute. repeat split. Qed.
